@@ -22,6 +22,8 @@ func init() {
 			{"ORDER-DIRECTION-CARRIED", func(c *eng.Ctx) { ruleOrderDirectionCarried(c, "ORDER-DIRECTION-CARRIED") }},
 			{"MINMAX-TABLE", ruleMinMaxTable},
 			{"AGG-PIPELINE", ruleAggPipeline},
+			{"AGG-FILTER-GATE", ruleAggFilterGate},
+			{"FILTER-KEY-NOT-A-FIELD", ruleFilterKeyNotAField},
 			{"AGG-SIBLING-CASES", ruleAggSiblingCases},
 			{"LIMIT-TABLE", ruleLimitTable},
 			{"INDEX-GUARD", func(c *eng.Ctx) { ruleIndexGuard(c, "INDEX-GUARD", []string{"internal/planner"}, 5) }},
